@@ -86,6 +86,9 @@ structure Hist where
   cleanup : Option (Nat × Nat) := none
   cleanupCs : Nat := 0             -- a sequence number taken right AFTER cleanup()'s critical section (0 = unknown)
   nestedNull : List (Nat × Nat) := []   -- nested execute() calls that returned a null token: (qb, qa)
+  bulkN : Nat := 0                 -- anonymous bulk tasks (one shared counter), their level and the start of their submission
+  bulkLvl : Nat := 0
+  bulkQb : Nat := 0
 deriving Repr, Inhabited
 
 def Hist.body? (h : Hist) (k : Nat) : Option Body := h.bodies.find? (·.k == k)
@@ -181,7 +184,8 @@ def checkSnaps (h : Hist) : Option String :=
         let upper := (idx.filter fun k =>
           let t := h.tasks[k]!
           t.lvl == l && t.qb < sn.qa && !h.cancelledBefore k sn.qb && !h.cleanupBefore sn.qb &&
-          (match h.body? k with | some b => b.s > sn.qb | none => true)).length
+          (match h.body? k with | some b => b.s > sn.qb | none => true)).length +
+          (if h.bulkN != 0 && h.bulkLvl == l && h.bulkQb < sn.qa && !h.cleanupBefore sn.qb then h.bulkN else 0)
         -- certainly waiting: submitted before, and still reported waiting / cancelled later
         let lower := (idx.filter fun k =>
           let t := h.tasks[k]!
